@@ -331,6 +331,23 @@ func c04NewRecord(typ string) (reflect.Value, bool) {
 	return reflect.Value{}, false
 }
 
+// OSM XML root element names (pinned from the OSM XML / osmChange / augmented diff formats)
+var c04Roots = map[string]string{"node": "node", "way": "way", "relation": "relation", "changeset": "changeset", "note": "note",
+	"user": "user", "bounds": "bounds", "osm": "osm", "change": "osmChange", "diff": "osm"}
+
+func c04RootName(data []byte) string {
+	d := xml.NewDecoder(bytes.NewReader(data))
+	for {
+		t, err := d.Token()
+		if err != nil {
+			return ""
+		}
+		if se, ok := t.(xml.StartElement); ok {
+			return se.Name.Local
+		}
+	}
+}
+
 func c04Exec(op string) (string, *Violation) {
 	f := fields(op)
 	switch f[0] {
@@ -340,6 +357,10 @@ func c04Exec(op string) (string, *Violation) {
 		data, err := xml.Marshal(v)
 		if err != nil {
 			return "marshal-error", &Violation{Signature: "xml-marshal-error", Text: err.Error()}
+		}
+		// the marshalled text uses the OSM XML element names: the root first
+		if root, want := c04RootName(data), c04Roots[f[1]]; root != want {
+			return "root-name", &Violation{Signature: "xml-root-name-" + f[1], Text: fmt.Sprintf("a %s marshals to a <%s> element, the OSM XML name is <%s>: %s", f[1], root, want, truncate(string(data), 300))}
 		}
 		back := c04Fresh(f[1])
 		if err := xml.Unmarshal(data, back); err != nil {
